@@ -50,6 +50,7 @@ GM = {"FLAT": "GFlat", "NESTED": "GNested", "BOTH": "GBoth"}
 NM = {"DEFAULT": "NDefault", "WITHOUT_ROOT": "NWithoutRoot"}
 CR = {"AUTO": "CRAuto", "EXPLICIT": "CRExplicit", "NONE": "CRNone"}
 SCRATCH = "/root/scratch/C16/run"
+FULL_SEEDS = 2   # hash seeds under which the hidden-field probes and the print_help()/later-parse probes are run as well
 
 
 # --------------------------------------------------------------------------------------------------
@@ -225,7 +226,7 @@ def gen(tier, seed):
                         c = {"dv": dv, "gm": gm, "nm": nm, "mode": mode, "dests": deep(lay)}
                         cases.append(add_source(rng, name_classes(c), srcs[k % 4]))
                         k += 1
-    n = 520 if tier == "quick" else 6000
+    n = 600 if tier == "quick" else 6000
     for _ in range(n):
         big = tier == "thorough" and rng.random() < 0.25
         depth = rng.randint(0, 3 if big else 2)
@@ -284,6 +285,7 @@ def run_impl(cases):
         env = dict(os.environ)
         env["PYTHONHASHSEED"] = str(s)
         env["COLUMNS"] = "80"
+        env["C16_FULL"] = "1" if s < FULL_SEEDS else "0"
         fout = os.path.join(SCRATCH, f"out_{tag}_{s}.json")
         procs.append((s, fout, subprocess.Popen([sys.executable, driver, fin, fout, SCRATCH], env=env,
                                                 stdout=subprocess.PIPE, stderr=subprocess.STDOUT, text=True)))
@@ -349,7 +351,7 @@ def merge(case, seeds):
         api = None
         if o["api_help"] is not None:
             api = _entries_with_dest(drv.parse_help(o["api_help"])["sections"], opt2dest)
-        v = {"end": ["cre"] if h[0] == "cre" else h[:2], "stream": stream, "groups": groups, "accepted": accepted, "action_dests": o["action_dests"],
+        v = {"full": o["full"], "end": ["cre"] if h[0] == "cre" else h[:2], "stream": stream, "groups": groups, "accepted": accepted, "action_dests": o["action_dests"],
              "hidden": [[d, all(k == "exit" and c == 2 for _, k, c in probes), probes, reg] for d, probes, reg in o["hidden"]],
              "format_help_same": o["format_help_same"], "api": api, "after": _view(case, o["after"]), "fresh": _view(case, o["fresh"]),
              "oracle": o["oracle"],
@@ -402,13 +404,19 @@ def _check_variant(case, v):
                 return f"entry of {d} shows default {default!r} although there is none"
             if text != f["help"]:
                 return f"entry of {d} shows help {text!r}, declared {f['help']!r}"
+    if not v["format_help_same"]:
+        return "format_help() after --help differs from what --help printed"
+    hidden_dests = [".".join(p + [f["name"]]) for p, t in wr for f in t["fields"] if not drv.exposed(f)]
+    for d in hidden_dests:
+        if d in v["action_dests"]:
+            return f"hidden field {d} has an action"
+    if not v["full"]:
+        return None
     for d, rejected, probes, reg in v["hidden"]:
         if reg or d in v["action_dests"]:
             return f"hidden field {d} has an action"
         if not rejected:
             return f"hidden field {d} is parseable: {[p for p in probes if not (p[1] == 'exit' and p[2] == 2)]}"
-    if not v["format_help_same"]:
-        return "format_help() after --help differs from what --help printed"
     if v["api"] != v["groups"]:
         return "print_help() on a fresh parser lists other entries than --help"
     if v["after"] != v["fresh"]:
@@ -484,7 +492,7 @@ def features(case, obs):
 # Coq emission.  Coq's cost is dominated by string literals, so every distinct string of a case is bound once
 # (`let sK := "..." in`) and referred to by name afterwards.
 
-MAXVAR = {8: 4, 32: 4}
+MAXVAR = {8: 3, 32: 4}
 
 
 class Names:
@@ -589,8 +597,8 @@ def to_coq(case, obs):
         acc = n.t(clist([n.t(cpair(n.s(d), n.ss(k))) for d, k in v["accepted"]]))
         hid = n.t(clist([cpair(n.s(d), cbool(rej)) for d, rej, _, _ in v["hidden"]]))
         cre = v["end"] == ["cre"]
-        api = "(Err CRE)" if cre else (n.t(_res(v["api"], lambda g: _groups(g, n))) if v["api"] is not None else '(Err (Raise "NoApi"))')
-        vs.append(f"(mkvar {n.t(clist([n.ss(r) for r in v['oracle']]))} {_err(v['end'])} {stream} {_groups(v['groups'], n)} {acc} "
+        api = "(Err CRE)" if cre or not v["full"] else (n.t(_res(v["api"], lambda g: _groups(g, n))) if v["api"] is not None else '(Err (Raise "NoApi"))')
+        vs.append(f"(mkvar {cbool(v['full'])} {n.t(clist([n.ss(r) for r in v['oracle']]))} {_err(v['end'])} {stream} {_groups(v['groups'], n)} {acc} "
                   f"{n.ss(v['action_dests'])} {hid} {cbool(bool(v['format_help_same']))} {api} "
                   f"{n.t(_res(v['after'], view))} {n.t(_res(v['fresh'], view))})")
     return n.wrap(f"mkcase (mkcfg {DV[case['dv']]} {GM[case['gm']]} {NM[case['nm']]}) {CR[case['mode']]} {_forest(case, n)} {pre} {cfgf} "
